@@ -371,9 +371,9 @@ def slow_reader_leg(ns, res, spec, d, rng):
             chunks.append(c)
             if len(chunks) % 8 == 0:
                 time.sleep(0.01)
-            if time.time() - t0 > 300:
+            if time.time() - t0 > 600:
                 p.kill()
-                break
+                raise env.InfraError('slow reader leg: %s did not finish within the wall-clock watchdog (inconclusive, not a verdict)' % front)
         err = p.stderr.read()
         rc = p.wait(timeout=60)
         got = b''.join(chunks)
